@@ -99,12 +99,51 @@ namespace
     if (idx % 997 == 1) ctx.sample(JObj().str("kernel", "kd-tree").raw("lattice_point_ids_in_insertion_order", jarr(c.pts)).done());
   }
 
+  // the polygon kernel in spherical coordinates: polygons of 10-degree lattice cells written with longitudes inside (-180,180], straddling +180,
+  // beyond +180 and below -180; the query longitude is always the one in (-180,180] (as the library hands it over). Queries sit on odd quarter
+  // steps (never on an edge: degrees times pi/180 is not exact)
+  void run_poly_sph(const std::vector<IP> &poly, int L, int flavour, uint64_t idx, Ctx &ctx)
+  {
+    static const int c_q = Ctx::counter_id("polygon_queries_spherical");
+    const double lon0 = flavour == 0 ? -20 : flavour == 1 ? 165 : flavour == 2 ? 190 : -215, lat0 = -10, unit = 10, d2r = PI / 180;
+    std::vector<Point<2>> pl;
+    for (auto &p : poly) pl.emplace_back((lon0 + unit*static_cast<double>(p[0]))*d2r, (lat0 + unit*static_cast<double>(p[1]))*d2r, CoordinateSystem::spherical);
+    std::vector<IP> sp;
+    for (auto &p : poly) sp.push_back({{4*p[0], 4*p[1]}});
+    bool in = false, out = false;
+    for (int64_t ix = -3; ix <= 4*(L-1)+3; ix += 2) for (int64_t iy = -3; iy <= 4*(L-1)+3; iy += 2)
+        {
+          const bool expect = georef::in_closed_polygon(sp, {{ix, iy}});
+          bool boundary = false;   // (odd quarter steps still hit diagonal edges)
+          for (size_t i = 0; i < sp.size(); ++i) if (georef::on_segment(sp[i], sp[(i+1)%sp.size()], {{ix, iy}})) boundary = true;
+          if (boundary) continue;
+          double lon = lon0 + unit*0.25*static_cast<double>(ix);
+          while (lon > 180) lon -= 360;
+          while (lon <= -180) lon += 360;
+          const Point<2> q(lon*d2r, (lat0 + unit*0.25*static_cast<double>(iy))*d2r, CoordinateSystem::spherical);
+          const bool got = WorldBuilder::Utilities::polygon_contains_point(pl, q);
+          ctx.eval(); ctx.count(c_q);
+          (expect ? in : out) = true;
+          if (got != expect)
+            {
+              std::string ps = "[";
+              for (size_t i = 0; i < poly.size(); ++i) ps += (i ? "," : "") + std::string("[") + num(lon0 + unit*static_cast<double>(poly[i][0])) + "," + num(lat0 + unit*static_cast<double>(poly[i][1])) + "]";
+              const char *FL[] = {"longitudes-within-(-180,180]", "polygon-straddles-+180", "polygon-written-beyond-+180", "polygon-written-below--180"};
+              ctx.violation(std::string("C19/polygon-spherical/") + FL[flavour] + (expect ? "/interior-point" : "/exterior-point"),
+                            JObj().raw("polygon_lon_lat_degrees", ps + "]").raw("query_lon_lat_degrees", jarr(std::vector<double>{lon, lat0 + unit*0.25*static_cast<double>(iy)})).boolean("expected", expect).boolean("observed", got).done());
+            }
+        }
+    if (in && out) ctx.nontrivial();
+    (void)idx;
+  }
+
   // ---------- polygon kernel ----------
   void run_poly(const std::shared_ptr<std::vector<std::vector<IP>>> &P, int L, uint64_t idx, Ctx &ctx)
   {
     static const int c_q = Ctx::counter_id("polygon_queries"), c_b = Ctx::counter_id("polygon_boundary_queries");
     const std::vector<IP> &poly = (*P)[idx % P->size()];
-    const int variant = static_cast<int>(idx / P->size());   // 0: unit 1; 1: unit 1e5 + offset; 2: unit 1/1024, negative offset
+    const int variant = static_cast<int>(idx / P->size());   // 0: unit 1; 1: unit 1e5 + offset; 2: unit 1/1024, negative offset; 3..6: spherical, see run_poly_sph
+    if (variant >= 3) { run_poly_sph(poly, L, variant - 3, idx, ctx); return; }
     const double unit = variant == 0 ? 1.0 : variant == 1 ? 1e5 : 1.0/1024, off = variant == 0 ? 0.0 : variant == 1 ? 7e5 : -3.0;
     std::vector<Point<2>> pl;
     for (auto &p : poly) pl.emplace_back(off + unit*static_cast<double>(p[0]), off + unit*static_cast<double>(p[1]), CoordinateSystem::cartesian);
@@ -307,6 +346,92 @@ namespace
     if (idx % 37 == 1) ctx.sample(JObj().str("kernel", "bezier closest point, bend family").raw("polyline", ps).integer("queries", static_cast<long long>(queries.size())).done());
   }
 
+  // ---------- Bezier in spherical coordinates: the kernel minimises the haversine of the angular distance ----------
+  struct SphCurve { double lon0, lat0, l1, l2, beta; bool two_points; double dir; };
+  void run_bezier_sph(const std::shared_ptr<std::vector<SphCurve>> &B, uint64_t idx, Ctx &ctx)
+  {
+    static const int c_q = Ctx::counter_id("bezier_spherical_queries_with_interior_foot"), c_end = Ctx::counter_id("bezier_queries_foot_at_curve_end");
+    const SphCurve &b = (*B)[idx];
+    const double d2r = PI / 180;
+    std::vector<Point<2>> pts;
+    if (b.two_points)
+      {
+        pts.emplace_back(b.lon0*d2r, b.lat0*d2r, CoordinateSystem::spherical);
+        pts.emplace_back((b.lon0 + b.l1*std::cos(b.dir*d2r))*d2r, (b.lat0 + b.l1*std::sin(b.dir*d2r))*d2r, CoordinateSystem::spherical);
+      }
+    else
+      {
+        pts.emplace_back((b.lon0 - b.l1)*d2r, b.lat0*d2r, CoordinateSystem::spherical);
+        pts.emplace_back(b.lon0*d2r, b.lat0*d2r, CoordinateSystem::spherical);
+        pts.emplace_back((b.lon0 + b.l2*std::cos(b.beta*d2r))*d2r, (b.lat0 + b.l2*std::sin(b.beta*d2r))*d2r, CoordinateSystem::spherical);
+      }
+    const WorldBuilder::Objects::BezierCurve curve(pts);
+    std::string ps = "[";
+    for (size_t i = 0; i < pts.size(); ++i) ps += (i ? "," : "") + std::string("[") + num(pts[i][0]/d2r) + "," + num(pts[i][1]/d2r) + "]";
+    ps += "]";
+    const size_t nseg = pts.size() - 1;
+    const int NS = 2000;
+    std::vector<std::array<double,2>> samp(nseg*(NS+1));
+    for (size_t i = 0; i < nseg; ++i) for (int k = 0; k <= NS; ++k) { const Point<2> p = curve(i, static_cast<double>(k)/NS); samp[i*(NS+1)+static_cast<size_t>(k)] = {{p[0], p[1]}}; }
+    auto hav = [](double lon, double lat, double qlon, double qlat)
+    { const double a = std::sin(0.5*(lat - qlat)), c = std::sin(0.5*(lon - qlon)); return a*a + c*c*std::cos(lat)*std::cos(qlat); };
+    std::vector<std::array<double,2>> queries;
+    for (size_t seg = 0; seg < nseg; ++seg)
+      for (int k = 1; k < 20; ++k)
+        {
+          const double t = 0.05*k;
+          const Point<2> p = curve(seg, t), p2 = curve(seg, t + 1e-6);
+          double tx = p2[0]-p[0], ty = p2[1]-p[1];
+          const double tn = std::sqrt(tx*tx + ty*ty);
+          if (!(tn > 0)) continue;
+          tx /= tn; ty /= tn;
+          for (double off : {0.25, 0.5, 1.0, 1.5}) for (double sg : {1.0, -1.0})
+              queries.push_back({{p[0] - sg*off*d2r*ty, p[1] + sg*off*d2r*tx}});
+        }
+    for (auto &qq : queries)
+      {
+        if (std::fabs(qq[1]) > 89.5*d2r) continue;
+        double best = 1e300; size_t bi = 0;
+        for (size_t sI = 0; sI < samp.size(); ++sI) { const double h = hav(samp[sI][0], samp[sI][1], qq[0], qq[1]); if (h < best) { best = h; bi = sI; } }
+        const size_t seg = bi / (NS+1); const int k = static_cast<int>(bi % (NS+1));
+        if ((seg == 0 && k <= 1) || (seg == nseg-1 && k >= NS-1)) { ctx.count(c_end); continue; }
+        auto hs = [&](size_t sg, double t) { const Point<2> p = curve(sg, t); return hav(p[0], p[1], qq[0], qq[1]); };
+        double lo = std::max(0.0, (k-1.0)/NS), hi = std::min(1.0, (k+1.0)/NS);
+        for (int it = 0; it < 60; ++it) { const double m1 = lo + (hi-lo)/3, m2 = hi - (hi-lo)/3; if (hs(seg, m1) < hs(seg, m2)) hi = m2; else lo = m1; }
+        const double hmin = std::min(best, hs(seg, 0.5*(lo+hi)));
+        ctx.eval(); ctx.count(c_q);
+        const Point<2> q(qq[0], qq[1], CoordinateSystem::spherical);
+        WorldBuilder::Objects::ClosestPointOnCurve r;
+        auto detail = [&](const std::string &what)
+        {
+          return JObj().str("what", what).raw("trench_lon_lat_degrees", ps).raw("query_lon_lat_degrees", jarr(std::vector<double>{qq[0]/d2r, qq[1]/d2r})).num("brute_force_min_haversine", hmin)
+                 .integer("brute_force_segment", static_cast<long long>(seg)).num("brute_force_parameter", 0.5*(lo+hi)).num("reported_distance", r.distance).integer("reported_index", static_cast<long long>(r.index)).num("reported_parameter", r.parametric_fraction).done();
+        };
+        try { r = curve.closest_point_on_curve_segment(q); }
+        catch (const std::exception &e) { ctx.violation("C19/bezier-spherical/closest-point-throws", JObj().raw("trench_lon_lat_degrees", ps).raw("query_lon_lat_degrees", jarr(std::vector<double>{qq[0]/d2r, qq[1]/d2r})).str("what", std::string(e.what()).substr(0, 200)).done()); continue; }
+        const std::string shape = b.two_points ? "two-point-line" : "single-bend";
+        if (!std::isfinite(r.distance))
+          {
+            // the same classes as in the cartesian family: how much farther is the nearer curve end than the interior minimum?
+            const double aend = std::min(2*std::asin(std::sqrt(hav(pts.front()[0], pts.front()[1], qq[0], qq[1]))), 2*std::asin(std::sqrt(hav(pts.back()[0], pts.back()[1], qq[0], qq[1]))));
+            const double amin = 2*std::asin(std::sqrt(hmin)), excess = aend/amin - 1.0;
+            const char *bucket = excess < 0.02 ? "curve-end-less-than-2-percent-farther" : excess < 0.10 ? "curve-end-2-to-10-percent-farther" : "curve-end-more-than-10-percent-farther";
+            ctx.violation("C19/bezier-spherical/no-foot-found-although-interior/" + shape + "/" + bucket, JObj().num("relative_excess_of_curve_end", excess).raw("case", detail("no closest point reported although the nearest curve point is interior")).done());
+            continue;
+          }
+        if (r.index >= nseg) { ctx.violation("C19/bezier-spherical/index-out-of-range", detail("segment index out of range")); continue; }
+        const Point<2> on = curve(r.index, r.parametric_fraction);
+        if ((on - r.point).norm() > 1e-9) ctx.violation("C19/bezier-spherical/point-not-at-reported-parameter", detail("reported point is not the curve point at the reported parameter"));
+        const double hr = hav(r.point[0], r.point[1], qq[0], qq[1]);
+        // compared as great-circle angles: "noticeably closer" = by more than 1e-3 relative plus 1e-7 rad (0.6 m on the Earth's surface); the spherical iteration stops within about a metre of the minimum
+        const double ang_r = 2*std::asin(std::sqrt(hr)), ang_min = 2*std::asin(std::sqrt(hmin));
+        if (ang_r > ang_min*(1 + 1e-3) + 1e-7)
+          ctx.violation("C19/bezier-spherical/closer-point-exists/" + shape + (ang_r < 1.01*ang_min ? "/by-less-than-1-percent" : ang_r < 1.1*ang_min ? "/by-1-to-10-percent" : "/by-more-than-10-percent") + (r.index != seg ? "/reported-foot-on-another-segment-than-the-nearest-point" : "/reported-foot-on-the-segment-of-the-nearest-point"), JObj().num("angle_to_reported_point", ang_r).num("smallest_angle_found_by_brute_force", ang_min).raw("case", detail("a sampled curve point is noticeably closer (great-circle angle) than the reported closest point")).done());
+      }
+    ctx.nontrivial();
+    if (idx % 37 == 1) ctx.sample(JObj().str("kernel", "bezier closest point, spherical").raw("trench_lon_lat_degrees", ps).integer("queries", static_cast<long long>(queries.size())).done());
+  }
+
   // ---------- conversions and great circle ----------
   void run_sphere(int step, uint64_t, Ctx &ctx)
   {
@@ -392,7 +517,7 @@ int main(int argc, char **argv)
               "points and bends <= 60 degrees x a generic query lattice, oracle = dense sampling + ternary refinement; conversions/great circle: full (lon,lat) lattice, all pairs, long-double "
               "Vincenty reference. non-trivial: >= 2 points / both inside and outside / interior foot; cases distinct by construction";
   spec.assumptions = {"kernels are called directly through their public headers", "Bezier oracle: 1500 samples per segment plus refinement; queries whose nearest curve point is a curve end are not judged (counted)"};
-  spec.counters = {"kd_queries", "kd_queries_with_ties", "polygon_queries", "polygon_boundary_queries", "bezier_queries_with_interior_foot", "bezier_queries_foot_at_curve_end",
+  spec.counters = {"kd_queries", "kd_queries_with_ties", "polygon_queries", "polygon_queries_spherical", "polygon_boundary_queries", "bezier_queries_with_interior_foot", "bezier_spherical_queries_with_interior_foot", "bezier_queries_foot_at_curve_end",
                    "conversion_round_trips", "conversion_round_trips_in_polar_caps", "great_circle_pairs", "great_circle_pairs_beyond_90_degrees"
                   };
   spec.quick_deadline_s = 300; spec.thorough_deadline_s = 1500;
@@ -411,8 +536,8 @@ int main(int argc, char **argv)
       const int L = th ? 4 : 3; const size_t nmax = th ? 5 : 4;
       auto P = std::make_shared<std::vector<std::vector<IP>>>(georef::lattice_polygons(L, 3, nmax, false));
       if (th) { auto Q = georef::lattice_polygons(3, 5, 6, false); P->insert(P->end(), Q.begin(), Q.end()); }
-      Suite a; a.name = "polygon"; a.n = P->size()*3; a.run = [P, L](uint64_t i, Ctx &c) { run_poly(P, L, i, c); };
-      a.bound = "all " + std::to_string(P->size()) + " simple lattice polygons (3.." + std::to_string(nmax) + " vertices, " + std::to_string(L) + "x" + std::to_string(L) + " lattice" + (th ? "; plus 5..6 vertices on 3x3" : "") + ") x 3 exact scalings x all half-step points";
+      Suite a; a.name = "polygon"; a.n = P->size()*7; a.run = [P, L](uint64_t i, Ctx &c) { run_poly(P, L, i, c); };
+      a.bound = "all " + std::to_string(P->size()) + " simple lattice polygons (3.." + std::to_string(nmax) + " vertices, " + std::to_string(L) + "x" + std::to_string(L) + " lattice" + (th ? "; plus 5..6 vertices on 3x3" : "") + ") x 3 exact scalings x all half-step points, and x 4 spherical placements (inside (-180,180], straddling +180, written beyond +180, written below -180) x odd quarter-step points";
       s.push_back(a);
     }
     {
@@ -429,6 +554,19 @@ int main(int argc, char **argv)
       Suite bb; bb.name = "bezier_bend"; bb.n = B->size(); bb.run = [B](uint64_t i, Ctx &c) { run_bezier_bend(B, i, c); };
       bb.bound = "trenches with one bend: segment lengths {100,300,500} km x {100,300,500} km x bends {" + std::string(th ? "-60..60 step 10 and +-45" : "+-30, +-45, +-60") + "} degrees x {3 coordinates, a 4th before, a 4th after}; 792 queries each on the curve normals around the bend, offsets 25..150 km on both sides";
       s.push_back(bb);
+    }
+    {
+      auto B = std::make_shared<std::vector<SphCurve>>();
+      for (auto o : std::vector<std::array<double,2>>{{{10, 0}}, {{170, 45}}, {{-60, 70}}, {{179.5, -30}}})
+        {
+          for (double l1 : {1.0, 3.0, 5.0}) for (double l2 : {1.0, 3.0}) for (double beta : (th ? std::vector<double>{-60, -45, -30, -15, 15, 30, 45, 60} : std::vector<double>{-60, -30, 30, 60}))
+                B->push_back({o[0], o[1], l1, l2, beta, false, 0});
+          for (double l1 : {0.3, 1.0, 3.0, 8.0}) for (double dir : {0.0, 30.0, 60.0, 90.0, 135.0, 200.0, 290.0}) B->push_back({o[0], o[1], l1, 0, 0, true, dir});
+        }
+      Suite bs; bs.name = "bezier_spherical"; bs.n = B->size(); bs.run = [B](uint64_t i, Ctx &c) { run_bezier_sph(B, i, c); };
+      bs.bound = "trench lines in spherical coordinates at 4 places (equator, mid latitude across no meridian, latitude 70, across the date line): one bend (segments {1,3,5} x {1,3} degrees, bends " + std::string(th ? "+-15..60" : "+-30, +-60") +
+                 ") and two-point lines (4 lengths x 7 directions); queries on the curve normals at 19 parameters per segment x offsets {0.25,0.5,1,1.5} degrees on both sides; haversine brute force";
+      s.push_back(bs);
     }
     {
       const int step = th ? 15 : 30;
